@@ -157,8 +157,8 @@ let cmd_sched_replay () =
        else
          match replay c (initc c) O (List.rev !acts) with
          | RpOk s ->
-           Printf.printf "OK final=%b ret=%s\n" (is_final s)
-             (match s.cp with CRet r -> show_errs r | _ -> "none")
+           Printf.printf "OK final=%b ret=%s | %s\n" (is_final s)
+             (match s.cp with CRet r -> show_errs r | _ -> "none") (show_state s)
          | RpDisabled (n, s) -> Printf.printf "DISABLED %d | %s\n" (int_of_nat n) (show_state s)
          | RpMismatch (n, s, got) ->
            Printf.printf "MISMATCH %d | model: %s | %s\n" (int_of_nat n)
